@@ -34,7 +34,8 @@ RULE = (
     "kinds: e expected, r expected-1, o expected+k (k in 1..254), a absolute counter, d counter of the previous datagram, b burst of n in-order frames, x server DisconnectRequest + new handshake; "
     "delivery delays 5 ms..1 s reorder datagrams, gaps 0..2.5 s straddle the 2 s out-of-order timer; every symbol sequence over {e,r,o+1,o+128,d,x,2.1 s pause} up to length 4 (quick) / 6 (thorough) "
     "is enumerated from expected=0 and up to length 2 / 4 from expected=254; UDP tunnel: 0..3 datagrams (counters 0,0 / 0,1 / 0,1,2 / 0,0,1 / 1 / 255 / random) handed over in the SAME loop iteration as the ConnectResponse "
-    "of the initial connect and of every reconnect handshake, followed by every word up to length 2 / 3 and by generated histories; non-trivial = the delivered history contains a repeated or out-of-order datagram, a second handshake or more than 256 expected frames; distinct by case"
+    "of the initial connect and of every reconnect handshake, followed by every word up to length 2 / 3 and by generated histories; consumers that raise: a per-datagram flag makes the cEMI callback raise a generated exception type "
+    "(ValueError, KeyError, RuntimeError, CouldNotParseCEMI, UnsupportedCEMIMessage, ConversionError) after it was called - every word up to length 3 / 4 x 4 sets of raising datagrams x 3 connection kinds, and in generated histories; non-trivial = the delivered history contains a repeated or out-of-order datagram, a second handshake or more than 256 expected frames; distinct by case"
 )
 LEVEL_TEXT = "Generated and bounded-exhaustive request histories are replayed against the real UDP tunnel and UDP device-management handlers in virtual time; deliveries and acknowledgements are compared datagram by datagram with a mod-256 reference model that is reset at every Connect handshake on the wire."
 LEVEL_NOTE = "Only own-channel datagrams are sent, and only while the simulated server holds an established channel; TCP connections do not evaluate counters and are out of scope; KNX/IP codec used for the wire log is trusted here (C20/C21)."
@@ -43,6 +44,7 @@ ASSUMPTIONS = [
     "every injected datagram carries the client's own channel id (the property does not speak about foreign channels: the tunnel ignores the channel id, DeviceManagement drops foreign channels)",
     "datagrams right behind the ConnectResponse (same loop iteration, before connect() resumes) are driven for the UDP tunnel only: UDPDeviceManagementConnection registers its receiver when connect() resumes, "
     "so such a DeviceConfigurationRequest is dropped like a lost datagram (no ack, not passed up; the server's repetition is then accepted) - observed, treated as a loss, not judged",
+    "a consumer's own exception escaping into the event loop is not judged (only acks, pass-up and counters are); for the device-management connection the consumer is the cemi_received_callback handed to DeviceManagement (it raises before the connection's own parsing)",
     "TCP tunnels / TCP device-management connections do not evaluate sequence counters (Core 03.08.02 §8.4.3.4.1) and are not driven",
     "wire log parsed with xknx.knxip (codec judged separately by C20/C21)",
 ]
@@ -79,8 +81,21 @@ def execute(case):
 
     gw.hooks["ConnectRequest"] = _count_connect
 
+    raises = {int(i): str(t) for i, t in (case.get("raises") or [])}
+    info["raised"] = 0
+
     def up(raw):
+        """The consumer (cemi_received_callback). For datagrams flagged in case['raises'] it raises after having been called."""
         gw.log.append({"t": round(gw.loop.time(), 6), "tick": gw.loop.tick, "dir": "up", "kind": "cemi", "raw": bytes(raw), "epoch": gw.epoch})
+        idx = (raw[-2] << 8) | raw[-1]
+        if idx in raises:
+            from xknx import exceptions as xe
+
+            exc_type = {"ValueError": ValueError, "KeyError": KeyError, "RuntimeError": RuntimeError, "CouldNotParseCEMI": xe.CouldNotParseCEMI, "UnsupportedCEMIMessage": xe.UnsupportedCEMIMessage, "ConversionError": xe.ConversionError}[raises[idx]]
+            exc = exc_type(f"consumer raises on datagram #{idx}")
+            exc._c23_consumer = True  # lets the judge tell it from an exception of the code under test
+            info["raised"] += 1
+            raise exc
 
     async def scenario(loop):
         gw.attach(loop)
@@ -213,6 +228,8 @@ def judge(ctx, case, log, info, escaped):
     conn = case["conn"]
     req_kind, ack_kind = KINDS[conn]
     for e in escaped:
+        if getattr(e["exception"], "_c23_consumer", False):
+            continue  # the consumer's own exception reaching the loop is not judged here - only acks / pass-up / counters are
         ctx.fail(f"C23:{conn}:escaped:{type(e['exception']).__name__}", case, e["repr"] + " " + e["message"])
     expected = None
     facts = {"expected": 0, "repeated": 0, "out_of_order": 0, "handshakes": 0, "wrapped": False, "max_run": 0}
@@ -293,7 +310,7 @@ def judge(ctx, case, log, info, escaped):
         ctx.fail(f"C23:{conn}:ack-without-request", case, f"{n_ack_total - n_ack_win} acknowledgement(s) not following a delivered request")
     if n_up_total != n_up_win:
         ctx.fail(f"C23:{conn}:callback-without-request", case, f"{n_up_total - n_up_win} cemi callback(s) not following a delivered request")
-    if conn == "devmgmt" and len(info["ind"]) != n_up_total:
+    if conn == "devmgmt" and len(info["ind"]) != n_up_total - info.get("raised", 0):
         # every payload is a well-formed M_PropInfo.ind: the public indication callback sees what DeviceManagement passed up
         ctx.fail("C23:devmgmt:indication-callback-count", case, f"{n_up_total} frames passed up, indication_callback called {len(info['ind'])} times")
     return facts
@@ -312,6 +329,7 @@ def check_case(ctx, case):
         return None
     facts = judge(ctx, case, log, info, escaped)
     facts["skipped"] = info["skipped"]
+    facts["raised"] = info.get("raised", 0)
     return facts
 
 
@@ -366,6 +384,29 @@ def _behind_shard(ctx, bi: int, maxlen: int) -> None:
         ctx.sample({"behind_handshake": BEHIND[bi], "then": "every word up to length %d" % maxlen})
 
 
+EXC_TYPES = ["ValueError", "CouldNotParseCEMI", "UnsupportedCEMIMessage", "KeyError", "RuntimeError", "ConversionError"]
+RAISE_SETS = [[0], [1], [0, 1, 2], [2, 3]]
+
+
+def _raise_shard(ctx, first: str, maxlen: int) -> None:
+    """Every short word with a consumer (cemi_received_callback) that raises on some of the datagrams: the acks,
+    what is passed up and the counter must be exactly as with a well-behaved consumer, also for the following datagrams."""
+    n = nt = 0
+    for length in range(1, maxlen + 1):
+        for rest in itertools.product(SYMS, repeat=length - 1):
+            word = first + "".join(rest)
+            for conn, ar in VARIANTS:
+                for k, rs in enumerate(RAISE_SETS):
+                    case = {"conn": conn, "auto_reconnect": ar, "prefix": 0, "raises": [[i, EXC_TYPES[(i + k + n) % len(EXC_TYPES)]] for i in rs], "ops": [SYMS[c] for c in word], "tail": 2.5}
+                    facts = check_case(ctx, case)
+                    n += 1
+                    if facts is not None and facts.get("raised"):
+                        nt += 1
+    ctx.bulk(n, nt, "enum-consumer-raises")
+    if first == "e":
+        ctx.sample({"consumer_raises_on": RAISE_SETS, "words_from": first, "up_to_length": maxlen})
+
+
 _gap = st.sampled_from(GAPS)
 _delay = st.sampled_from(DELAYS)
 _op = st.one_of(
@@ -388,7 +429,8 @@ def cases(draw):
     behind = []
     if conn == "tunnel" and draw(st.booleans()):
         behind = draw(st.lists(st.lists(st.sampled_from([0, 0, 0, 1, 1, 2, 255]) | st.integers(0, 255), max_size=3), min_size=1, max_size=3))
-    return {"conn": conn, "auto_reconnect": ar, "prefix": prefix, "behind": behind, "ops": [list(o) for o in ops], "tail": draw(st.sampled_from([0.5, 2.5]))}
+    raises = draw(st.lists(st.tuples(st.integers(0, 30) | st.integers(prefix, prefix + 30), st.sampled_from(EXC_TYPES)), max_size=4)) if draw(st.booleans()) else []
+    return {"conn": conn, "auto_reconnect": ar, "prefix": prefix, "behind": behind, "raises": [list(r) for r in raises], "ops": [list(o) for o in ops], "tail": draw(st.sampled_from([0.5, 2.5]))}
 
 
 def _hyp_oracle(ctx, case) -> None:
@@ -407,6 +449,8 @@ def _hyp_oracle(ctx, case) -> None:
         cls.append("has-repeated")
     if any(case.get("behind") or []):
         cls.append("frames-behind-handshake")
+    if facts.get("raised"):
+        cls.append("consumer-raised")
     ctx.case(
         repr(sorted(case.items())),
         nontrivial=_nontrivial(facts) or any(case.get("behind") or []),
@@ -454,7 +498,7 @@ def selftest(ctx) -> None:
 
 def _job(ctx, what: str, *args) -> None:
     """One fork pool for everything (forking is the expensive part on a busy box)."""
-    {"enum": _enum_shard, "wrap": _wrap_shard, "hyp": _hyp_shard, "behind": _behind_shard}[what](ctx, *args)
+    {"enum": _enum_shard, "wrap": _wrap_shard, "hyp": _hyp_shard, "behind": _behind_shard, "raise": _raise_shard}[what](ctx, *args)
 
 
 def run(ctx) -> None:
@@ -463,6 +507,7 @@ def run(ctx) -> None:
     jobs: list[tuple] = [("wrap", c, ar, v) for c, ar in VARIANTS for v in range(4)]
     jobs += [("hyp", ctx.n(100, 2500))] * 16
     jobs += [("behind", bi, ctx.n(2, 3)) for bi in range(len(BEHIND))]
+    jobs += [("raise", first, ctx.n(3, 4)) for first in SYMS]
     for length in range(L0, 0, -1):
         for first in SYMS:
             jobs.append(("enum", length, first, 0))
